@@ -30,12 +30,20 @@ def attributed(spec):
         if var is not ds:
             var.attributes["units"] = "u%d" % i
             var.attributes["valid_range"] = [0, i + 1]
+            if i % 2:
+                # Byte-typed and bytes-valued attributes (numpy uint8 scalar / array, Python bytes)
+                var.attributes["flag"] = np.uint8(200 + i % 50)
+                var.attributes["mask"] = np.array([1, 128, 255], dtype="u1")
+                var.attributes["raw"] = b"ab"
     return ds
 
 
-def judge(ctx, spec, sx, q, expected, bodies):
-    """bodies: ext -> run_request result. Returns a tag."""
+def judge(ctx, spec, sx, q, expected, bodies, context=None):
+    """bodies: ext -> run_request result. Returns a tag.  `context`: the pair of datasets held by the process and the
+    requests served before this one (replayed with the case)"""
     case = {"dataset": sx, "query": q}
+    if context:
+        case["process"] = context
     size = len(q) + len(sx) // 50
     for ext in ("dds", "dods", "ascii"):
         r = bodies[ext]
@@ -79,6 +87,17 @@ def judge(ctx, spec, sx, q, expected, bodies):
     if [v if isinstance(v, str) else float(v) for v in vals] != [v if isinstance(v, str) else float(v) for v in want_vals]:
         ctx.oracle_fail("the data response carries other values than the constrained source", case, vals[:30], want_vals[:30], size=size)
         return "values-differ"
+    # the announced length of the data response is its length (the header is absent for sequences and strings)
+    clen = bodies["dods"].get("clen")
+    if clen is not None and int(clen) != len(bodies["dods"]["body"]):
+        ctx.oracle_fail("the Content-Length of the data response differs from the length of its body", case, int(clen),
+                        len(bodies["dods"]["body"]), size=size)
+        return "content-length"
+    want_clen = not any(e[0] == "sq" for e in expected) and "String" not in repr(want_decl)
+    if want_clen != (clen is not None):
+        ctx.oracle_fail("the data response %s a Content-Length" % ("lacks" if want_clen else "announces"), case, clen,
+                        "a header exactly when the dataset holds neither a sequence nor strings", size=size)
+        return "content-length-presence"
     # ASCII: every value, in order, with its index tuple
     if not arest.startswith("-" * 45 + "\n"):
         ctx.oracle_fail("no separator line after the ASCII declaration", case, arest[:60], "45 dashes", size=size)
@@ -105,19 +124,33 @@ def explore(ctx, tier, search=False):
     if search:
         n_ds = 200
     cases = []
-    for di in range(n_ds):
-        spec = G.gen_dataset(rng)
-        sx = G.ds_sexp(spec)
-        # every other dataset serves its sequences from a lazy, already range-restricted row stream; the same handler
-        # object answers all 32 requests of the dataset, so a response that depends on earlier requests shows up
-        lazy = False
-        if di % 2 and any(v["k"] == "sq" and v["rows"] for v in spec["vars"]):
-            # "plain" lazy sequences take selections too (the C04 findings empty result / column-vs-column are repaired)
-            lazy = "ranged" if di % 4 == 3 else "plain"
-        app = BaseHandler(G.build(spec, lazy=lazy))
-        app_attr = BaseHandler(attributed(spec))
-        das_plain = G.run_request(app_attr, "/d.das", "")
-        for ci in range(8):
+    clen_cases = []
+    for pi in range(n_ds // 2):
+        # two datasets of the same name (variables from the same pool of names, other types / shapes / record counts) are
+        # held by two handlers of one process and asked alternately: an answer that depends on what the process served
+        # before shows up.  pydap's modules are imported anew per pair, so that a pair replays on its own.
+        G.fresh_pydap()
+        BaseHandler = load()
+        pair = []
+        for side in (0, 1):
+            di = 2 * pi + side
+            spec = G.gen_dataset(rng)
+            if side:
+                spec["name"] = pair[0]["spec"]["name"]
+            # every other dataset serves its sequences from a lazy row stream (plain, or already range-restricted); the same
+            # handler object answers all 32 requests of the dataset
+            lazy = False
+            if pi % 2 and any(v["k"] == "sq" and v["rows"] for v in spec["vars"]):
+                # every other pair is lazy on both sides (like-named columns of other types behind two row streams);
+                # "plain" lazy sequences take selections too (the C04 findings empty result / column-vs-column are repaired)
+                lazy = "ranged" if di % 4 == 3 else "plain"
+            pair.append({"spec": spec, "sx": G.ds_sexp(spec), "lazy": lazy, "app": BaseHandler(G.build(spec, lazy=lazy)),
+                         "app_attr": BaseHandler(attributed(spec))})
+        for side in (0, 1):
+            pair[side]["das_plain"] = G.run_request(pair[side]["app_attr"], "/d.das", "")
+        served = []
+        for ci, side in [(ci, side) for ci in range(8) for side in (0, 1)]:
+            spec, sx, lazy, app, app_attr, das_plain = (pair[side][k] for k in ("spec", "sx", "lazy", "app", "app_attr", "das_plain"))
             q, expected = G.gen_valid_ce(rng, spec)
             for _ in range(20):
                 if lazy != "ranged" or not any(c in q for c in "&<>=!"):
@@ -126,7 +159,10 @@ def explore(ctx, tier, search=False):
             else:
                 q, expected = G.gen_valid_ce(rng, dict(spec, vars=[v for v in spec["vars"] if v["k"] != "sq"]))
             bodies = {ext: G.run_request(app, "/d." + ext, q) for ext in ("dds", "dods", "ascii", "das")}
-            tag = judge(ctx, spec, sx, q, expected, bodies)
+            context = {"datasets": [pair[0]["sx"], pair[1]["sx"]], "lazy": [pair[0]["lazy"], pair[1]["lazy"]], "side": side,
+                       "served": list(served)}
+            served.append([side, q])
+            tag = judge(ctx, spec, sx, q, expected, bodies, context)
             hs = "hyperslab" if "[" in q else "plain"
             kinds = "+".join(sorted({e[0] for e in expected})) or "empty"
             ctx.count((sx, q), bool(q), tag="%s|%s|sel=%s|%s" % (hs, kinds, "yes" if "&" in q or any(c in q for c in "<>=") else "no", tag),
@@ -137,9 +173,20 @@ def explore(ctx, tier, search=False):
                                      ("string-selection", '"' in q),
                                      ("last-index-beyond-extent", any(int(x) >= 8 for x in __import__("re").findall(r":(\d+)\]", q)))) if on]
             ctx.tags["feat=" + ("+".join(feats) or "none")] += 1
+            leaves = G.decl_leaves(G.expected_decl(expected))
+            for li, (_id, ty_, shp_) in enumerate(leaves):
+                if ty_ == "Byte":
+                    n_ = int(np.prod(shp_)) if shp_ else None
+                    ctx.tags["byte=%s|%s" % ("scalar-or-column" if n_ is None else "array count%%4=%d%s" % (n_ % 4, " (empty)" if n_ == 0 else ""),
+                                             "followed" if li + 1 < len(leaves) else "last")] += 1
             for ext in ("dds", "dods", "ascii", "das"):
                 cases.append(("h-handle %s %s %s" % (sx, G.hx("/d." + ext), G.hx(q)), c15.canon_impl(bodies[ext]),
                               {"dataset": sx, "query": q, "ext": ext}))
+            r_ = bodies["dods"]
+            clen_cases.append(("h-clen %s %s %s" % (sx, G.hx("/d.dods"), G.hx(q)),
+                               "n/a" if r_["exc"] or r_["status"] != 200 else (r_["clen"] or "none"),
+                               {"dataset": sx, "query": q, "ext": "dods"}))
+            ctx.tags["content-length=%s" % ("announced" if r_.get("clen") else "absent")] += 1
             # DAS independence, on the dataset that has attributes; also for a query that does not parse
             for qq in (q, rng.choice(["a[x]", "zz", "a[1:2:3:4]", "dap4.ce=a", "s&s.i>>1", "foo(", q + "]"])):
                 d = G.run_request(app_attr, "/d.das", qq)
@@ -149,6 +196,10 @@ def explore(ctx, tier, search=False):
                                     (das_plain["body"] or b"")[:200].decode("ascii", "replace"), size=len(qq))
                 ctx.count(("das", sx, qq), True, tag="das-independence")
     ctx.correspond("the four bodies of BaseHandler for one query", cases)
+    ctx.correspond("Content-Length of the data response (calculate_size) vs contentLength", clen_cases)
+    # how often the generated cases lie in the domain of C06_payload_decodes(_source): typed values, no empty container
+    for out in common.run_driver([c[0].replace("h-clen", "h-xdrwf", 1) for c in clen_cases]):
+        ctx.tags["constrained dataset in C05's domain (Xdr.WF)=%s" % out] += 1
 
 
 def run(ctx):
@@ -183,6 +234,17 @@ def replay(payload):
         print("das?%s %s das without query" % (q, "==" if ok else "!="))
         return ok
     app = BaseHandler(G.build(spec))
+    pr = c.get("process")
+    if pr:
+        # the two datasets the process held, and what it had served before this request
+        G.fresh_pydap()
+        BaseHandler = load()
+        apps = [BaseHandler(G.build(c15.spec_from_sexp(sx_), lazy=lz)) for sx_, lz in zip(pr["datasets"], pr["lazy"])]
+        for side, q_ in pr["served"]:
+            for ext in ("dds", "dods", "ascii", "das"):
+                G.run_request(apps[side], "/d." + ext, q_)
+        app = apps[pr["side"]]
+        print("replayed %d earlier request groups on the two datasets of the process" % len(pr["served"]))
     bodies = {ext: G.run_request(app, "/d." + ext, q) for ext in ("dds", "dods", "ascii")}
     for ext, r in bodies.items():
         print(".%s?%s -> exc=%s status=%s body_exc=%s" % (ext, q, r["exc"], r["status"], r["body_exc"]))
